@@ -525,11 +525,17 @@ namespace bloch::update {
             std::istringstream in(content);
             std::string line;
             while (std::getline(in, line)) {
-                if (line.find(assetName) == std::string::npos)
-                    continue;
+                // "<hash>  <name>" (sha256sum text mode) or "<hash> *<name>" (binary mode):
+                // the entry must name exactly this asset, not merely contain its name
+                // (bloch-...tar.gz.sig, other-bloch-...tar.gz).
                 std::istringstream parts(line);
                 std::string hash;
-                if (parts >> hash)
+                std::string name;
+                if (!(parts >> hash >> name))
+                    continue;
+                if (!name.empty() && name.front() == '*')
+                    name.erase(name.begin());
+                if (name == assetName)
                     return hash;
             }
             return std::nullopt;
